@@ -149,6 +149,20 @@ pub fn render_wide(_args: &[String]) -> String {
                 }
             }
         }
+        // double-width and combining text next to a wide_bar: the line is still exactly as wide as the terminal
+        for (t, pfx, msg) in [("{msg} {wide_bar}", "", "日本語"), ("進捗 [{wide_bar}] {pos}/{len}", "", ""), ("{prefix}{wide_bar}|", "e\u{301}e\u{301}", "")] {
+            if width < 20 {
+                continue; // the rest of the line has to fit
+            }
+            let style = ProgressStyle::with_template(t).unwrap();
+            let f = frame(&style, Some(10), 3, msg, pfx, 0, 0, width);
+            tried += 1;
+            if !(f.lines.len() == 1 && text_cols(&f.lines[0].1) == width as usize) {
+                let got: Vec<&str> = f.lines.iter().map(|l| l.1.as_str()).collect();
+                return format!("{{\"found\": true, \"clause\": \"C13 a line with wide_bar is exactly as wide as the terminal, also next to double-width text\", \"tried\": {}, \"input\": {{\"template\": {}, \"width\": {}, \"msg\": {}, \"rendered\": {}}}, \"rerun\": \"replay render_wide\"}}",
+                    tried, crate::js(t), width, crate::js(msg), crate::jlist(&got));
+            }
+        }
         for msg in ["", "hi", "hello world, this is a long message that does not fit"] {
             for (t, trailing, al) in [("ab{wide_msg}cd", false, '<'), ("x{wide_msg}", true, '<'), ("{pos} {wide_msg}", true, '<'),
                                       ("ab{wide_msg:>}cd", false, '>'), ("x{wide_msg:>}", true, '>'), ("x{wide_msg:^}", true, '^'), ("ab{wide_msg:^}cd", false, '^')] {
